@@ -284,7 +284,10 @@ def shrink(pool, group, cls, budget=40, wall=60.0):
             if 0 < rr < 1 and rr != case['r']:
                 cands.append(dict(case, r=rr))
         if len(case['alter']) > 1:
-            for i in range(len(case['alter'])):
+            k = len(case['alter'])
+            cands.append(dict(case, alter=case['alter'][:k // 2]))
+            cands.append(dict(case, alter=case['alter'][k // 2:]))
+            for i in range(min(k, 6)):
                 cands.append(dict(case, alter=[case['alter'][i]]))
         # simpler process set: fewer specs
         groups = [with_case(c) for c in cands if c != case]
